@@ -75,7 +75,8 @@ def span_family(draw, max_events: int = MAX_EVENTS) -> Dict[str, Any]:
     offset = draw(st.sampled_from([0, 0, 7, 10**9]))
     spans = [[ids[i], ordered[i][0] + offset, ordered[i][1]] for i in range(n)]
     row_order = list(draw(st.permutations(list(range(n)))))
-    return {"spans": spans, "row_order": row_order}
+    # scale 4: every stamp and duration divided by 4 (quarter-microsecond times, as in traces loaded with ns rounding disabled)
+    return {"spans": spans, "row_order": row_order, "scale": draw(st.sampled_from([1, 1, 1, 4]))}
 
 
 # ------------------------------------------------------------------------------------------------
